@@ -706,7 +706,10 @@ func (c *Client) Start() (addr net.Addr, err error) {
 		// file that will actually be executed.
 		path := cmd.Path
 		if cmd.Dir != "" && !filepath.IsAbs(path) {
-			path = filepath.Join(cmd.Dir, path)
+			// Not filepath.Join: it removes ".." elements lexically, whereas
+			// the kernel resolves them after following Dir, which may be a
+			// symbolic link.
+			path = cmd.Dir + string(filepath.Separator) + path
 		}
 		if ok, err := c.config.SecureConfig.Check(path); err != nil {
 			return nil, fmt.Errorf("error verifying checksum: %s", err)
